@@ -193,7 +193,7 @@ def plan(tier):
 
 
 def shards(tier):
-    return layers.shards(plan(tier), ('order', 'args'))
+    return layers.shards(plan(tier), ('order', 'args', 'char'))
 
 
 def prepare(tier):
